@@ -67,89 +67,113 @@ variable {K : Type} [Field K] [LinearOrder K] [IsStrictOrderedRing K]
 /-- the asymptote test of the source: `e cos f < -1` (unchanged tree) or `≤ -1` (repaired) -/
 def beyond (asymLe : Bool) (x : K) : Prop := if asymLe then x ≤ -1 else x < -1
 def notBeyond (asymLe : Bool) (x : K) : Prop := if asymLe then -1 < x else -1 ≤ x
+/-- the sign tests on `a`: `a > 0` / `a < 0` (unchanged tree) or `a ≥ 0` / `a ≤ 0` (repaired) -/
+def aPos (strict : Bool) (a : K) : Prop := if strict then 0 ≤ a else 0 < a
+def aNeg (strict : Bool) (a : K) : Prop := if strict then a ≤ 0 else a < 0
 
-theorem check_none_iff (asymLe : Bool) (tiny pm a e cf : K) :
-    fromOrbitCheck asymLe tiny pm a e cf = none ↔
-      (e ≠ 1 ∧ 0 ≤ e ∧ (1 < e → a ≤ 0) ∧ (e < 1 → 0 ≤ a) ∧ notBeyond asymLe (e * cf) ∧ tiny ≤ pm) := by
+theorem check_none_iff (v : Variant) (tiny pm a e cf : K) :
+    fromOrbitCheck v tiny pm a e cf = none ↔
+      (e ≠ 1 ∧ 0 ≤ e ∧ (1 < e → ¬ aPos v.aStrict a) ∧ (e < 1 → ¬ aNeg v.aStrict a) ∧ notBeyond v.asymLe (e * cf) ∧ tiny ≤ pm) := by
   unfold fromOrbitCheck checkTail
   simp only [sc_hmul, sc_hneg, sc_neg, sc_one, sc_zero]
-  cases asymLe <;> simp only [beyond, notBeyond, Bool.false_eq_true, if_false, if_true] <;>
+  rcases v with ⟨v1, v2, asymLe, v4, strict⟩
+  cases asymLe <;> cases strict <;>
+  simp only [beyond, notBeyond, aPos, aNeg, Bool.false_eq_true, if_false, if_true] <;>
   split_ifs <;> simp_all
   all_goals first
     | (intro h; exfalso; linarith)
     | (exact lt_of_le_of_ne ‹_› ‹_›)
+    | (intro h1; exfalso; exact ‹¬ e = 1› (le_antisymm ‹e ≤ 1› h1))
     | (intro h1; exfalso; have h2 : e < 1 := lt_of_le_of_ne ‹e ≤ 1› ‹¬ e = 1›; linarith [h1 h2])
 
-theorem check_radial_iff (asymLe : Bool) (tiny pm a e cf : K) :
-    fromOrbitCheck asymLe tiny pm a e cf = some .radial ↔
+theorem check_radial_iff (v : Variant) (tiny pm a e cf : K) :
+    fromOrbitCheck v tiny pm a e cf = some .radial ↔
       e = 1 := by
   unfold fromOrbitCheck checkTail
   simp only [sc_hmul, sc_hneg, sc_neg, sc_one, sc_zero]
-  cases asymLe <;> simp only [beyond, notBeyond, Bool.false_eq_true, if_false, if_true] <;>
+  rcases v with ⟨v1, v2, asymLe, v4, strict⟩
+  cases asymLe <;> cases strict <;>
+  simp only [beyond, notBeyond, aPos, aNeg, Bool.false_eq_true, if_false, if_true] <;>
   split_ifs <;> simp_all
   all_goals first
     | (intro h; exfalso; linarith)
     | (exact lt_of_le_of_ne ‹_› ‹_›)
+    | (intro h1; exfalso; exact ‹¬ e = 1› (le_antisymm ‹e ≤ 1› h1))
     | (intro h1; exfalso; have h2 : e < 1 := lt_of_le_of_ne ‹e ≤ 1› ‹¬ e = 1›; linarith [h1 h2])
 
-theorem check_negE_iff (asymLe : Bool) (tiny pm a e cf : K) :
-    fromOrbitCheck asymLe tiny pm a e cf = some .negE ↔
+theorem check_negE_iff (v : Variant) (tiny pm a e cf : K) :
+    fromOrbitCheck v tiny pm a e cf = some .negE ↔
       e < 0 := by
   unfold fromOrbitCheck checkTail
   simp only [sc_hmul, sc_hneg, sc_neg, sc_one, sc_zero]
-  cases asymLe <;> simp only [beyond, notBeyond, Bool.false_eq_true, if_false, if_true] <;>
+  rcases v with ⟨v1, v2, asymLe, v4, strict⟩
+  cases asymLe <;> cases strict <;>
+  simp only [beyond, notBeyond, aPos, aNeg, Bool.false_eq_true, if_false, if_true] <;>
   split_ifs <;> simp_all
   all_goals first
     | (intro h; exfalso; linarith)
     | (exact lt_of_le_of_ne ‹_› ‹_›)
+    | (intro h1; exfalso; exact ‹¬ e = 1› (le_antisymm ‹e ≤ 1› h1))
     | (intro h1; exfalso; have h2 : e < 1 := lt_of_le_of_ne ‹e ≤ 1› ‹¬ e = 1›; linarith [h1 h2])
 
-theorem check_boundE_iff (asymLe : Bool) (tiny pm a e cf : K) :
-    fromOrbitCheck asymLe tiny pm a e cf = some .boundE ↔
-      (1 < e ∧ 0 < a) := by
+theorem check_boundE_iff (v : Variant) (tiny pm a e cf : K) :
+    fromOrbitCheck v tiny pm a e cf = some .boundE ↔
+      (1 < e ∧ aPos v.aStrict a) := by
   unfold fromOrbitCheck checkTail
   simp only [sc_hmul, sc_hneg, sc_neg, sc_one, sc_zero]
-  cases asymLe <;> simp only [beyond, notBeyond, Bool.false_eq_true, if_false, if_true] <;>
+  rcases v with ⟨v1, v2, asymLe, v4, strict⟩
+  cases asymLe <;> cases strict <;>
+  simp only [beyond, notBeyond, aPos, aNeg, Bool.false_eq_true, if_false, if_true] <;>
   split_ifs <;> simp_all
   all_goals first
     | (intro h; exfalso; linarith)
     | (exact lt_of_le_of_ne ‹_› ‹_›)
+    | (intro h1; exfalso; exact ‹¬ e = 1› (le_antisymm ‹e ≤ 1› h1))
     | (intro h1; exfalso; have h2 : e < 1 := lt_of_le_of_ne ‹e ≤ 1› ‹¬ e = 1›; linarith [h1 h2])
 
-theorem check_unboundE_iff (asymLe : Bool) (tiny pm a e cf : K) :
-    fromOrbitCheck asymLe tiny pm a e cf = some .unboundE ↔
-      (0 ≤ e ∧ e < 1 ∧ a < 0) := by
+theorem check_unboundE_iff (v : Variant) (tiny pm a e cf : K) :
+    fromOrbitCheck v tiny pm a e cf = some .unboundE ↔
+      (0 ≤ e ∧ e < 1 ∧ aNeg v.aStrict a) := by
   unfold fromOrbitCheck checkTail
   simp only [sc_hmul, sc_hneg, sc_neg, sc_one, sc_zero]
-  cases asymLe <;> simp only [beyond, notBeyond, Bool.false_eq_true, if_false, if_true] <;>
+  rcases v with ⟨v1, v2, asymLe, v4, strict⟩
+  cases asymLe <;> cases strict <;>
+  simp only [beyond, notBeyond, aPos, aNeg, Bool.false_eq_true, if_false, if_true] <;>
   split_ifs <;> simp_all
   all_goals first
     | (intro h; exfalso; linarith)
     | (exact lt_of_le_of_ne ‹_› ‹_›)
+    | (intro h1; exfalso; exact ‹¬ e = 1› (le_antisymm ‹e ≤ 1› h1))
     | (intro h1; exfalso; have h2 : e < 1 := lt_of_le_of_ne ‹e ≤ 1› ‹¬ e = 1›; linarith [h1 h2])
 
-theorem check_fRange_iff (asymLe : Bool) (tiny pm a e cf : K) :
-    fromOrbitCheck asymLe tiny pm a e cf = some .fRange ↔
-      (e ≠ 1 ∧ 0 ≤ e ∧ (1 < e → a ≤ 0) ∧ (e < 1 → 0 ≤ a) ∧ beyond asymLe (e * cf)) := by
+theorem check_fRange_iff (v : Variant) (tiny pm a e cf : K) :
+    fromOrbitCheck v tiny pm a e cf = some .fRange ↔
+      (e ≠ 1 ∧ 0 ≤ e ∧ (1 < e → ¬ aPos v.aStrict a) ∧ (e < 1 → ¬ aNeg v.aStrict a) ∧ beyond v.asymLe (e * cf)) := by
   unfold fromOrbitCheck checkTail
   simp only [sc_hmul, sc_hneg, sc_neg, sc_one, sc_zero]
-  cases asymLe <;> simp only [beyond, notBeyond, Bool.false_eq_true, if_false, if_true] <;>
+  rcases v with ⟨v1, v2, asymLe, v4, strict⟩
+  cases asymLe <;> cases strict <;>
+  simp only [beyond, notBeyond, aPos, aNeg, Bool.false_eq_true, if_false, if_true] <;>
   split_ifs <;> simp_all
   all_goals first
     | (intro h; exfalso; linarith)
     | (exact lt_of_le_of_ne ‹_› ‹_›)
+    | (intro h1; exfalso; exact ‹¬ e = 1› (le_antisymm ‹e ≤ 1› h1))
     | (intro h1; exfalso; have h2 : e < 1 := lt_of_le_of_ne ‹e ≤ 1› ‹¬ e = 1›; linarith [h1 h2])
 
-theorem check_noMass_iff (asymLe : Bool) (tiny pm a e cf : K) :
-    fromOrbitCheck asymLe tiny pm a e cf = some .noMass ↔
-      (e ≠ 1 ∧ 0 ≤ e ∧ (1 < e → a ≤ 0) ∧ (e < 1 → 0 ≤ a) ∧ notBeyond asymLe (e * cf) ∧ pm < tiny) := by
+theorem check_noMass_iff (v : Variant) (tiny pm a e cf : K) :
+    fromOrbitCheck v tiny pm a e cf = some .noMass ↔
+      (e ≠ 1 ∧ 0 ≤ e ∧ (1 < e → ¬ aPos v.aStrict a) ∧ (e < 1 → ¬ aNeg v.aStrict a) ∧ notBeyond v.asymLe (e * cf) ∧ pm < tiny) := by
   unfold fromOrbitCheck checkTail
   simp only [sc_hmul, sc_hneg, sc_neg, sc_one, sc_zero]
-  cases asymLe <;> simp only [beyond, notBeyond, Bool.false_eq_true, if_false, if_true] <;>
+  rcases v with ⟨v1, v2, asymLe, v4, strict⟩
+  cases asymLe <;> cases strict <;>
+  simp only [beyond, notBeyond, aPos, aNeg, Bool.false_eq_true, if_false, if_true] <;>
   split_ifs <;> simp_all
   all_goals first
     | (intro h; exfalso; linarith)
     | (exact lt_of_le_of_ne ‹_› ‹_›)
+    | (intro h1; exfalso; exact ‹¬ e = 1› (le_antisymm ‹e ≤ 1› h1))
     | (intro h1; exfalso; have h2 : e < 1 := lt_of_le_of_ne ‹e ≤ 1› ‹¬ e = 1›; linarith [h1 h2])
 
 end rejection
@@ -444,14 +468,14 @@ theorem libm_tiny (L : Libm K) : @OrbitK.tiny K L.orbitK = L.tiny := rfl
 
 theorem fromOrbit_error_iff (L : Libm K) (v : Variant) (G : K) (pr : Part K) (m a e inc Om om f : K) (err : OErr) :
     @fromOrbit K L.orbitK v G pr m a e inc Om om f = .error err ↔
-      fromOrbitCheck v.asymLe L.tiny pr.m a e (L.cos f) = some err := by
+      fromOrbitCheck v L.tiny pr.m a e (L.cos f) = some err := by
   unfold fromOrbit
   simp only [libm_cos, libm_tiny]
   split <;> simp_all
 
 theorem fromOrbit_ok (L : Libm K) (v : Variant) (G : K) (pr : Part K) (m a e inc Om om f : K) (P : Part K)
     (h : @fromOrbit K L.orbitK v G pr m a e inc Om om f = .ok P) :
-    fromOrbitCheck v.asymLe L.tiny pr.m a e (L.cos f) = none ∧
+    fromOrbitCheck v L.tiny pr.m a e (L.cos f) = none ∧
     P = fromOrbitCore pr m a e ⟨L.cos Om, L.sin Om, L.cos om, L.sin om, L.cos f, L.sin f, L.cos inc, L.sin inc⟩
           (L.sqrt (v0sq G pr.m m a e)) := by
   unfold fromOrbit at h
@@ -461,10 +485,12 @@ theorem fromOrbit_ok (L : Libm K) (v : Variant) (G : K) (pr : Part K) (m a e inc
   · injection h with h
     exact ⟨by assumption, h.symm⟩
 
-theorem guard_denoms (asymLe : Bool) (tiny pm a e cf : K) (h : fromOrbitCheck asymLe tiny pm a e cf = none)
-    (ha : a ≠ 0) (hasym : asymLe = false → e * cf ≠ -1) :
+theorem guard_denoms (v : Variant) (tiny pm a e cf : K) (h : fromOrbitCheck v tiny pm a e cf = none)
+    (ha : v.aStrict = false → a ≠ 0) (hasym : v.asymLe = false → e * cf ≠ -1) :
     1 - e * e ≠ 0 ∧ 1 + e * cf ≠ 0 ∧ 0 < a * (1 - e * e) ∧ 0 < 1 + e * cf := by
-  obtain ⟨h1, h0, hb, hu, hf, hm⟩ := (check_none_iff asymLe tiny pm a e cf).mp h
+  obtain ⟨h1, h0, hb, hu, hf, hm⟩ := (check_none_iff v tiny pm a e cf).mp h
+  rcases v with ⟨v1, v2, asymLe, v4, strict⟩
+  simp only at ha hasym hb hu hf
   have hpos : 0 < 1 + e * cf := by
     cases asymLe
     · simp only [notBeyond, Bool.false_eq_true, if_false] at hf
@@ -474,10 +500,20 @@ theorem guard_denoms (asymLe : Bool) (tiny pm a e cf : K) (h : fromOrbitCheck as
     · simp only [notBeyond, if_true] at hf
       linarith
   rcases lt_or_gt_of_ne h1 with he | he
-  · have ha' : 0 < a := lt_of_le_of_ne (hu he) (Ne.symm ha)
+  · have ha' : 0 < a := by
+      have := hu he
+      cases strict
+      · simp only [aNeg, Bool.false_eq_true, if_false, not_lt] at this
+        exact lt_of_le_of_ne this (Ne.symm (ha rfl))
+      · simp only [aNeg, if_true, not_le] at this; exact this
     have : 0 < 1 - e * e := by nlinarith
     exact ⟨ne_of_gt this, ne_of_gt hpos, mul_pos ha' this, hpos⟩
-  · have ha' : a < 0 := lt_of_le_of_ne (hb he) ha
+  · have ha' : a < 0 := by
+      have := hb he
+      cases strict
+      · simp only [aPos, Bool.false_eq_true, if_false, not_lt] at this
+        exact lt_of_le_of_ne this (ha rfl)
+      · simp only [aPos, if_true, not_le] at this; exact this
     have : 1 - e * e < 0 := by nlinarith
     exact ⟨ne_of_lt this, ne_of_gt hpos, mul_pos_of_neg_of_neg ha' this, hpos⟩
 
